@@ -367,6 +367,16 @@ theorem C12_const_shape (k q S s0 : ℤ) (hk : 0 < k) (hq : k * q = 1000000000) 
       ((List.range (k * S).toNat).map (fun (i : ℕ) => s0 + (i : ℤ) * q), s0 + S * 1000000000) :=
   Proofs.C12Shape.toks_const_exact k q S s0 hk hq
 
+/-- `const` with a FRACTIONAL rate of m/1000 instances per second (m > 0) for `ms` milliseconds (float64 read as exact reals;
+the Spec uses this only where float64 IS exact: rate and seconds are eighths and 10⁹/rate is whole): the REGENERATED
+`NewConst` emits ⌊m·ms/10⁶⌋ tokens — a started fraction of an instance is NOT rounded up —, token i at ⌊i·10¹²/m⌋ ns, and
+finishes after the duration. -/
+theorem C12_const_fractional_shape (m ms s0 : ℤ) (hm : 0 < m) (hms : 0 ≤ ms) :
+    Proofs.C12Shape.toks (Gen.Schedule.NewConst ((m : ℝ) / 1000) (ms * 1000000)) s0 =
+      ((List.range ((m * ms) / 1000000).toNat).map (fun (i : ℕ) => s0 + ((i : ℤ) * 1000000000000) / m),
+        s0 + ms * 1000000) :=
+  Proofs.C12Shape.toks_const_frac m ms s0 hm hms
+
 /-- The token times the executable Spec computes for a startup profile — the ones every correspondence case compares
 with what the REAL schedule hands out (`fail:step-shape`) — are those of the composite of the regenerated
 `NewOnce` / `NewConst` / `NewInstanceStep`, for every composite — flat or NESTED — of once / const / instance_step parts for which the
@@ -390,6 +400,10 @@ theorem C12_nested_composite_flat (a b : List Pandora.Sched) (s0 : ℤ) :
 example : Spec.C12.partsToks [.once 2, .const 0 500, .step 1 3 1 1000, .const 2 1000] 0 =
     some [0, 0, 500000000, 1500000000, 2500000000, 2500000000, 3000000000] := by decide
 example : (0 : ℤ) < 4 ∧ (4 : ℤ) * 250000000 = 1000000000 := by decide
+/-- …fractional rates: 2.5/s for 1 s is 2 instances (at 0 and 0.4 s), then 0.625/s for 3.25 s is 2 instances (1.6 s apart) -/
+example : Spec.C12.partsToks [.constm 2500 1000, .constm 625 3250] 0 =
+    some [0, 400000000, 1000000000, 2600000000] := by decide
+example : (0 : ℤ) < 2500 ∧ (0 : ℤ) ≤ 1000 := by decide
 /-- …and a nested one: the same tokens as the flat sequence once:1, pause 500 ms, once:1, pause 500 ms, once:2 -/
 example : Spec.C12.partsToks [.comp [.once 1, .const 0 500], .comp [.once 1, .comp [.const 0 500, .once 2]]] 0 =
     some [0, 500000000, 1000000000, 1000000000] := by decide
